@@ -277,6 +277,11 @@ func runqSelect(r *Rand) runqStmt {
 				sel = append(sel, f.expr+" as "+f.name)
 			}
 		}
+		for _, f := range fs {
+			if nd := orderNeeds[f.name]; nd != "" {
+				sel = append(sel, nd)
+			}
+		}
 		where := pick(r, []string{"key >= ''", "key ^= 'a' | key ^= 'b' | key ^= 'k'", "is_int(value)", "value != 'x'", "key in ('a', 'b', 'k1', 'k2', 'zz')"})
 		no := 1 + r.Intn(min(3, len(fs)))
 		seen := map[int]bool{}
